@@ -568,16 +568,22 @@ class Escape:
         """Where does exception class `exc` raised at `node` go?  Returns list of handler
         nodes that may catch it and a flag `escapes`."""
         caught = []
+        g = build_cfg(fi)
         for (tr, part, hnodes) in reversed(node.try_ctx):
-            if part != 'body':
-                continue
-            for hn in hnodes:
-                names = self._handler_names(fi, hn.ast.type)
-                if any(self.hier.is_sub(exc, h) for h in names):
-                    caught.append(hn)
-                    return caught, False
-                if any(self.hier.is_sub(h, exc) for h in names):
-                    caught.append(hn)     # may catch (handler narrower than the raised class)
+            if part == 'body':
+                for hn in hnodes:
+                    names = self._handler_names(fi, hn.ast.type)
+                    if any(self.hier.is_sub(exc, h) for h in names):
+                        caught.append(hn)
+                        return caught, False
+                    if any(self.hier.is_sub(h, exc) for h in names):
+                        caught.append(hn)     # may catch (handler narrower than the raised class)
+            fin = g.finally_exc.get(id(tr))
+            if fin is not None:
+                # not caught at this level (or raised in a handler / else block): the finally block runs with the exception
+                # in flight and re-raises it at its exit node, from where routing continues in the outer context
+                caught.append(fin[0])
+                return caught, False
         return caught, True
 
     def _handler_arrivals(self, fi, g, raises):
@@ -641,6 +647,22 @@ class Escape:
                         if origin not in d and len(d) < self.MAX_ORIGINS:
                             d[origin] = ['%s %s: call %s' % (self.prog.loc(fi, call), fi.qual, t.qual)] + chain
             out[n.id] = r
+        # exceptions that enter the exceptional copy of a finally block are re-raised at its exit node
+        if g.finally_exc:
+            changed = True
+            while changed:
+                changed = False
+                for n in g.nodes:
+                    for exc, origins in list(out[n.id].items()):
+                        hs, _ = self.route(fi, n, exc)
+                        for h in hs:
+                            if h.kind == 'finally':
+                                fexit = g.finally_exc[id(h.ast)][1]
+                                d = out[fexit.id].setdefault(exc, {})
+                                for o, chain in origins.items():
+                                    if o not in d and len(d) < self.MAX_ORIGINS:
+                                        d[o] = chain
+                                        changed = True
         # bare raise in handlers re-raises what arrives
         arr = None
         for n in g.nodes:
